@@ -184,7 +184,22 @@ def run(ctx):
         rel(base, "header", [False, True], "header-body", body)
     for base in (oligo, dict(oligo, counts=True), cov, ctr, mn, dict(mn, preset="m2s"), {"cmd": "cgr", "k": 3, "counts": False, "vecsize": -1, "threads": 1},
                  {"cmd": "cgr", "k": -1, "counts": False, "vecsize": -1, "threads": 1}):
-        rel(base, "threads", [1, 0, 4, 16], "threads")
+        rel(base, "threads", [1, 0, 4, 16, 64], "threads")
+    # the environment is not an option either: variables that libraries underneath look at (thread pool, terminal, colours,
+    # locale) must not change any result
+    envs = [{}, {"RAYON_NUM_THREADS": "1"}, {"RAYON_NUM_THREADS": "7", "NO_COLOR": "1"}, {"TERM": "dumb", "COLUMNS": "20", "LINES": "3"},
+            {"LC_ALL": "de_DE.UTF-8", "LANG": "de_DE.UTF-8", "LC_NUMERIC": "de_DE.UTF-8"}, {"CLICOLOR_FORCE": "1", "RUST_LOG": "trace", "RUST_BACKTRACE": "full"}]
+    for bj, base in enumerate((oligo, dict(oligo, counts=True, threads=0), dict(cov, threads=0), dict(ctr, threads=0), dict(mn, threads=0),
+                               {"cmd": "cgr", "k": 3, "counts": False, "vecsize": -1, "threads": 0})):
+        digs = []
+        for j, env in enumerate(envs):
+            out = ctx.path("cli_env_%d_%d" % (bj, j))
+            clean(out)
+            vlib.sh([cli] + args_of(base, inp, out, alt), timeout=600, env=env)
+            digs.append(digest(base, result_file(base, out)))
+            clean(out)
+        for j, d in enumerate(digs[1:]):
+            allev.append({"ev": "eq", "what": "environment %s" % json.dumps(envs[j + 1]), "o": base, "a": digs[0], "b": d})
 
     def decode_acgt(o, d):
         out = []
